@@ -47,6 +47,7 @@ type Cfg struct {
 	CompatNames            bool // with NameStress: also names that need the compatible_names option (NewX, XArgs, XResult)
 	WideStructs            bool // some structs have 9-36 fields (more than one bookkeeping word of required-field bits)
 	ArgDefaults            bool // function arguments may carry default values (the grammar allows it)
+	ArgRequired            bool // some function arguments are written `required`
 	FuncNamePool           bool // method names from a small pool: the same name in several services, names that contain each other
 	EnumAsInt              bool // i32 / i64 values may be written as enum members (the member's number)
 	SameConstNames         bool // constants of different files (in different Go packages) may share a name
@@ -71,7 +72,7 @@ func GoSafe() Cfg {
 func Full() Cfg {
 	return Cfg{MaxFiles: 4, MaxDefs: 4, Annotations: true, NastyLits: true, CppStuff: true, Consts: true, Defaults: true,
 		Services: true, NegIDs: true, ExpDoubles: true, HexIDs: true, IntSpell: true, SameBase: true, EnumViaTypedef: true,
-		EnumViaTypedefFar: true, WideStructs: true, ArgDefaults: true, EmptyEnums: true, Comments: true, SelfRef: true, MapStructKey: true, RawCtl: true, UnionDefaults: true, AliasNS: true, EnumAsInt: true}
+		EnumViaTypedefFar: true, WideStructs: true, ArgDefaults: true, EmptyEnums: true, Comments: true, SelfRef: true, MapStructKey: true, RawCtl: true, UnionDefaults: true, AliasNS: true, EnumAsInt: true, ArgRequired: true}
 }
 
 type gen struct {
@@ -675,6 +676,9 @@ func (g *gen) genFields(kind string) []*Field {
 			}
 		case "args":
 			f.Req = ReqDefault
+			if g.cfg.ArgRequired && g.p(1, 6, "argrequired") {
+				f.Req = ReqRequired // `required` is legal in an argument list (and kept, unlike `optional`)
+			}
 		case "throws":
 			f.Req = ReqDefault
 		}
@@ -818,8 +822,8 @@ func min64(a, b int64) int64 {
 	return b
 }
 
-var dblTexts = []string{"0.0", "1.5", "-2.25", ".5", "+3.125", "100.0", "0.001", "-.75", "12345.678", "-9223372036854775808.0", "9223372036854775808.0"}
-var dblExpTexts = []string{"1e5", "2.5e3", "1E-3", "-4.0e2", "1.5e+10", ".5e1", "7e0", "1e23", "1.7976931348623157e308"}
+var dblTexts = []string{"0.0", "1.5", "-2.25", ".5", "+3.125", "100.0", "0.001", "-.75", "12345.678", "-9223372036854775808.0", "9223372036854775808.0", "3.141592653589793", "0.30000000000000004", "123456.789012"}
+var dblExpTexts = []string{"1e5", "2.5e3", "1E-3", "-4.0e2", "1.5e+10", ".5e1", "7e0", "1e23", "1.7976931348623157e308", "1e-50", "6.02214076e23", "-2.2250738585072014e-308"}
 
 // ConstRefText spells a reference from file `from` to a constant definition.
 func ConstRefText(from *File, d *Def) string {
